@@ -12,43 +12,61 @@ READY = True
 IMPL_SHARDS = 16
 
 RULE = ("one PRNG (VERIF_SEED). A case = (initial Root value, reader chains, history, executor schedule, "
-        "FieldKeys visiting orders). Families: allpairs (one reader effect per field path of a populated "
-        "store — structs, Option, Vec, keyed Vec, depth up to 6 — then a write through every writable "
-        "path in turn, so every (written path, read path) pair is exercised; readers of collections either "
-        "read them whole or iterate with iter_unkeyed / the keyed iterator; any field on a chain may be handed "
-        "on as a type-erased ArcField / Field, a chain may start from the ArcStore handle, a Box field is "
-        "followed with deref_field; every reader is one of Effect::new / ImmediateEffect / RenderEffect / Memo read by "
-        "an Effect / Effect::new_isomorphic and reads through one of try_read / try_get / try_with / track + "
-        "untracked read / track_field + reader / iterate / OptionStoreExt::map / invert, the closures reading "
-        "the inner value untracked), random (random reader "
-        "subsets in random creation order, histories mixing set / patch / poke at random reachable paths, "
-        "Option and Vec becoming empty and populated again, non-FIFO schedules), keyed (histories of "
-        "insert / remove / reorder through the keyed field's own write guard with readers on items and "
-        "item sub-fields, writes to items after each change, segment reports op 3), keyed-exact (at most "
-        "one key added and one removed per update, so FieldKeys' hash order cannot matter: raw path "
-        "segments compared, op 2), patch (Patch::patch of structs/options/vectors with partial changes), "
-        "keyed-ancestor (a keyed collection reordered through an ancestor's guard: open finding F-C16-e). "
-        "A case is non-trivial when at least one write wakes some but not all of the readers; distinct "
+        "FieldKeys visiting orders, per reader: read entry point / subscriber kind / kept handle). Families: allpairs "
+        "(one reader effect per field path of a populated store — structs, a tuple struct, Option, Vec, keyed Vec, a keyed "
+        "Vec nested in a keyed item, a tuple, Box, enums with unit / tuple / struct variants, depth up to 8 — then a write "
+        "through every writable path in turn, so every (written path, read path) pair is exercised; readers of collections "
+        "either read them whole or iterate with iter_unkeyed / the keyed iterator, forwards, with rev() or alternately "
+        "from both ends; any field on a chain may be handed on as a type-erased ArcField::from(x) / Field::from(x), a chain "
+        "may start from the ArcStore handle, a Box field is followed with deref_field, an Option with unwrap() or "
+        "map_untracked(), an enum variant field with the generated Option<Subfield> accessor; every reader is one of "
+        "Effect::new / ImmediateEffect / RenderEffect / Memo read by an Effect / Effect::new_isomorphic, reads through one "
+        "of try_read / try_get / try_with / track + untracked read / track_field + reader / iterate / "
+        "OptionStoreExt::map / invert / Signal::from(subfield) / the enum's bool accessors, and either builds its "
+        "accessors afresh in every run or keeps the handle it was given; every write goes through one of "
+        "*try_write() / Set::try_set / Update::try_update / try_maybe_update(true) / StoreField::writer()), random (random "
+        "reader subsets in random creation order, histories mixing set / patch / poke / untracked writes "
+        "(try_write_untracked, try_update_untracked, try_maybe_update(false)) at random reachable paths, "
+        "Option and Vec becoming empty and populated again, enums changing variant, non-FIFO schedules), keyed (histories of "
+        "insert / remove / reorder through the keyed field's own write guard, tracked or untracked, with readers on items and "
+        "item sub-fields, writes to items after each change, update_keys() by hand, segment reports op 3), keyed-exact "
+        "(at most one key added and one removed per update, so FieldKeys' hash order cannot matter: raw path "
+        "segments compared, op 2), keyed-nested (the same for the collection inside a keyed item), keyed-large (6 .. 40 "
+        "keys, around the growth steps of FieldKeys' hash map), nested (outer collection losing and gaining items — a new "
+        "item takes over the path segment of a removed one — while the nested collections are restructured and their items "
+        "read and written by key), patch (Patch::patch of structs/options/vectors/tuples with partial changes, a "
+        "#[patch] closure, PatchField for ()), keyed-ancestor (a keyed collection reordered through an ancestor's guard: open "
+        "finding F-C16-e). A case is non-trivial when at least one write wakes some but not all of the readers; distinct "
         "= distinct case hash.")
 TRUSTED = [
     "Coq 8.16.1 kernel (coqc); no axioms: every theorem of Properties_C16.v is 'Closed under the global context'",
     "extraction to OCaml with ExtrOcamlBasic only, ocamlfind ocamlopt 4.13.1, extract/driver.ml sexp I/O",
-    "harness/stores (Rust): fixed #[derive(Store, Patch)] shapes Root/Mid/Sub/Item/Leaf, a type-erased accessor "
-    "layer over the public API (field getters, OptionStoreExt::unwrap, StoreFieldIterator::at_unkeyed, AtKeyed::new, "
-    "ArcField::from, Field::from, ArcStore / Store::from, DerefField::deref_field, OptionStoreExt::{map, invert}, "
-    "Get / With / Track / StoreField::{track_field, reader}, Read::try_read, Write::try_write, Patch::patch, StoreField::path), one Effect::new per reader, a FIFO/"
+    "harness/stores (Rust): fixed #[derive(Store, Patch)] shapes Root/Mid/Sub/Item/Tag/Leaf/Choice, a type-erased accessor "
+    "layer over the public API (field getters of named and tuple structs, enum variant accessors, OptionStoreExt::{unwrap, "
+    "map_untracked}, StoreFieldIterator::at_unkeyed, AtKeyed::new, ArcField::from, Field::from, ArcStore / Store::from, "
+    "DerefField::deref_field, OptionStoreExt::{map, invert}, Signal::from(subfield), Get / With / Track / "
+    "StoreField::{track_field, reader, writer}, Read::try_read, Write::{try_write, try_write_untracked}, Set, Update, "
+    "UpdateUntracked, Patch::patch, KeyedSubfield::update_keys, StoreField::path), one subscriber per reader, a FIFO/"
     "scheduled single-threaded executor installed with Executor::init_local_custom_executor",
     "modelled, not verified (Store/Sim.v, compared with the real crates on every case): reactive_graph's ArcTrigger "
     "subscriber set (ordered Vec, emptied by notify), Effect re-run/clear_sources/re-subscribe, channel wake-up; "
-    "the executor of the harness; the shape-directed value tree standing for the Rust structs",
+    "the executor of the harness; the shape-directed value tree standing for the Rust structs and enums",
     "FieldKeys' FxHashMap iteration order is a parameter of the model (theorems quantify over it); the check feeds "
     "the model random orders and requires the observation not to depend on them",
+    "compared, not modelled separately: the write entry points Set / Update / maybe_update / raw StoreField::writer and the "
+    "read entry points Signal::from / reversed and double-ended iteration / map_untracked / the enum's bool accessors are "
+    "the same model transitions as try_write / try_read / iterate / unwrap / a tracked read; a kept handle is the same "
+    "model reader as freshly built accessors (the model has no notion of a cached path)",
+    "not drivable natively: the wasm32 branch of KeyMap (Rc<RefCell<HashMap>> instead of DashMap)",
 ]
 ASSUMPTIONS = [
     "a keyed collection is restructured (insert/remove/reorder) only through its own write guard "
-    "(KeyedSubfield::write, which calls update_keys); writes through ancestors keep its key sequence "
-    "(otherwise: open finding F-C16-e, exercised by the separate family keyed-ancestor); "
-    "an item written through AtKeyed keeps its key; keys within one collection are distinct",
+    "(KeyedSubfield::write / write_untracked, which call update_keys); writes through ancestors keep its key sequence "
+    "(otherwise: open finding F-C16-e, exercised by the separate family keyed-ancestor) - for a collection nested in a "
+    "keyed item the outer collection's guard counts as an ancestor: an outer item that stays keeps its nested keys, a "
+    "new outer item brings its own; an item written through AtKeyed keeps its key; keys within one collection are distinct",
+    "a keyed collection is accessed by key only: at_unkeyed(i) / iter_unkeyed() on a keyed field address the items by "
+    "index segments, which alias the key segments of the same collection by construction",
     "with a Memo-backed reader in a case the schedule is FIFO (the effect behind a memo is polled a second time when "
     "the memo's value changed, which would shift a scheduled order); order between an ImmediateEffect and a scheduled "
     "reader is not compared (the former always runs inside the notification)",
@@ -58,18 +76,40 @@ ASSUMPTIONS = [
     "are in the proper-prefix relation (the sub-case where both lie strictly below the written field is the open "
     "finding F-C16-g)",
     "Patch::patch is not applied across a change of a keyed collection (PatchField for Vec uses index segments)",
+    "untracked writes (try_write_untracked, try_update_untracked, maybe_update -> false): the property speaks about "
+    "notifying writes; of an untracked one the oracle demands that no UNRELATED reader is notified, that every reader that "
+    "runs later sees the current value and that keyed readers keep following their key; that the related readers stay "
+    "asleep is compared with the model only. A reader left behind by an untracked write is judged again (who is "
+    "notified) after its next run; a type-erased handle of a keyed item is not kept across an untracked write",
+    "enum variant field accessors are called under untrack() (the accessor itself does a tracked read of the enum "
+    "field: built inside the reader it would make it a reader of the whole enum); a kept handle is built under the "
+    "case's owner, not the effect's (an arena-allocated Field dies with its owner)",
+    "manual Notify::notify() on a field and the raw StoreField::writer() of the store itself / of a keyed collection are "
+    "not writes through a store field in the sense of the property and are not judged",
 ]
 
 # ------------------------------------------------------------------------------------------ schema
 INT = ("int",)
-LEAF = ("struct", [INT, INT], ["p", "q"])
-ITEM = ("struct", [INT, INT, LEAF], ["id", "n", "l"])
-SUB = ("struct", [INT, LEAF, ("vec", INT), ("box", LEAF)], ["x", "l", "v", "b"])
+LEAF = ("struct", [INT, INT], ["0", "1"])           # tuple struct Leaf(i64, i64, #[store(skip)] ())
+TAG = ("struct", [INT, INT], ["id", "n"])           # item of the keyed collection nested in a keyed item
+ITEM = ("struct", [INT, INT, LEAF, ("keyed", TAG)], ["id", "n", "l", "kk"])
+# enum Choice { A, B(i64, Leaf), C { x: i64, y: i64 } }; value = [tag, fields..]
+CHOICE = ("enum", [[], [INT, LEAF], [INT, INT]], ["A", "B", "C"], [[], ["0", "1"], ["x", "y"]])
+TUP = ("tuple", [INT, INT])                          # (i64, i64): no accessors; PatchField for (A, B)
+SUB = ("struct", [INT, LEAF, ("vec", INT), ("box", LEAF), TUP, CHOICE], ["x", "l", "v", "b", "t", "e"])
 MID = ("struct", [INT, LEAF, ("opt", LEAF), ("keyed", ITEM)], ["x", "l", "o", "k"])
-ROOT = ("struct", [INT, MID, ("opt", SUB), ("vec", SUB), ("keyed", ITEM)], ["a", "m", "o", "v", "k"])
+ROOT = ("struct", [INT, MID, ("opt", SUB), ("vec", SUB), ("keyed", ITEM), CHOICE], ["a", "m", "o", "v", "k", "e"])
+
+
+def is_item(sch):
+    """a struct that is the item type of a keyed collection: its field 0 is the key"""
+    return sch is ITEM or sch is TAG
+
 
 F = lambda i: [0, i]
 U = [1, 0]
+U1 = [1, 1]         # the same subfield, obtained with OptionStoreExt::map_untracked(|f| f)
+V = lambda a, i: [6, 10 * a + i]     # field i of variant a of an enum (generated Option<Subfield> accessor)
 I = lambda i: [2, i]
 K = lambda k: [3, k]
 E = [4, 0]          # hand the field on as a type-erased ArcField (same path)
@@ -87,11 +127,13 @@ def has_child(sch, v, st):
     if sch[0] == "struct":
         return kind == 0 and 0 <= arg < len(sch[1])
     if sch[0] == "opt":
-        return kind == 1 and len(v) == 1
+        return kind == 1 and arg in (0, 1) and len(v) == 1
     if sch[0] == "vec":
         return kind == 2 and 0 <= arg < len(v)
     if sch[0] == "keyed":
         return kind == 3 and any(it[0] == arg for it in v)
+    if sch[0] == "enum":
+        return kind == 6 and v[0] == arg // 10 and arg % 10 < len(sch[1][v[0]])
     return False
 
 
@@ -106,6 +148,8 @@ def child(sch, v, st):
         return sch[1][arg], v[arg], arg
     if sch[0] == "opt":
         return sch[1], v[0], 0
+    if sch[0] == "enum":
+        return sch[1][arg // 10][arg % 10], v[1 + arg % 10], 1 + arg % 10
     if kind == 2:
         return sch[1], v[arg], arg
     pos = [i for i, it in enumerate(v) if it[0] == arg][0]
@@ -134,8 +178,10 @@ def well_typed(chain):
             continue
         if sch[0] == "struct" and kind == 0 and 0 <= arg < len(sch[1]):
             sch = sch[1][arg]
-        elif sch[0] == "opt" and kind == 1 and arg == 0:
+        elif sch[0] == "opt" and kind == 1 and arg in (0, 1):
             sch = sch[1]
+        elif sch[0] == "enum" and kind == 6 and arg // 10 < len(sch[1]) and arg % 10 < len(sch[1][arg // 10]):
+            sch = sch[1][arg // 10][arg % 10]
         elif sch[0] == "vec" and kind == 2 and arg >= 0:
             sch = sch[1]
         elif sch[0] == "keyed" and kind == 3 and arg >= 0:
@@ -186,12 +232,15 @@ def all_chains(tree, sch=ROOT, v=None, pre=()):
             out += all_chains(tree, sch[1], x, pre + (K(x[0]),))
     elif sch[0] == "box":
         out += all_chains(tree, sch[1], v, pre + (D,))
+    elif sch[0] == "enum":
+        for i, s in enumerate(sch[1][v[0]]):
+            out += all_chains(tree, s, v[1 + i], pre + (V(v[0], i),))
     return out
 
 
 def tup(chain):
     """the path a chain addresses: its steps without the type-erasure markers"""
-    return tuple((a, b) for a, b in chain if a not in (4, 5))
+    return tuple((a, 0 if a == 1 else b) for a, b in chain if a not in (4, 5))
 
 
 def is_prefix(a, b):
@@ -209,7 +258,7 @@ def name(chain):
             out += "." + sch[2][arg]
             sch = sch[1][arg]
         elif kind == 1:
-            out += "?"
+            out += "?" if arg == 0 else "?u"
             sch = sch[1] if sch[0] == "opt" else INT
         elif kind == 2:
             out += "[%d]" % arg
@@ -222,6 +271,9 @@ def name(chain):
         elif kind == 5:
             out += "*"
             sch = sch[1] if sch[0] == "box" else INT
+        elif kind == 6 and sch[0] == "enum" and arg // 10 < len(sch[1]) and arg % 10 < len(sch[1][arg // 10]):
+            out += ".%s.%s" % (sch[2][arg // 10], sch[3][arg // 10][arg % 10])
+            sch = sch[1][arg // 10][arg % 10]
         else:
             out += "<%d %d>" % (kind, arg)
     return out
@@ -231,9 +283,9 @@ def diff_paths(sch, old, new, pre):
     """reference for Patch: the fields whose value changed, as the finest paths at which the
     two trees differ (a vector whose length changes, or an option that appears/disappears,
     changes as a whole)"""
-    if sch[0] in ("int", "box"):
+    if sch[0] in ("int", "box", "enum"):
         return [] if old == new else [pre]
-    if sch[0] == "struct":
+    if sch[0] in ("struct", "tuple"):
         out = []
         for i, s in enumerate(sch[1]):
             out += diff_paths(s, old[i], new[i], pre + ((0, i),))
@@ -266,18 +318,21 @@ def rnd_value(rng, sch, size=2, keys=None):
         return rnd_int(rng)
     if sch[0] == "box":
         return rnd_value(rng, sch[1], size)
-    if sch[0] == "struct":
+    if sch[0] in ("struct", "tuple"):
         return [rnd_value(rng, s, size) for s in sch[1]]
+    if sch[0] == "enum":
+        a = rng.randrange(len(sch[1]))
+        return [a] + [rnd_value(rng, s, size) for s in sch[1][a]]
     if sch[0] == "opt":
         return [] if rng.random() < 0.3 else [rnd_value(rng, sch[1], size)]
     if sch[0] == "vec":
         return [rnd_value(rng, sch[1], size) for _ in range(rng.randint(0, size))]
     ids = rng.sample(range(1, 30), rng.randint(0, size + 1))
-    return [keyed_item(rng, k) for k in ids]
+    return [keyed_item(rng, k, sch[1]) for k in ids]
 
 
-def keyed_item(rng, k):
-    v = rnd_value(rng, ITEM)
+def keyed_item(rng, k, sch=None):
+    v = rnd_value(rng, sch or ITEM)
     v[0] = k
     return v
 
@@ -290,11 +345,22 @@ def mutate(rng, sch, v, top=True):
         return v + rng.randint(1, 5)
     if sch[0] == "box":
         return mutate(rng, sch[1], v, False)
-    if sch[0] == "struct":
+    if sch[0] in ("struct", "tuple"):
         out = list(v)
-        idxs = [i for i in range(len(sch[1])) if not (sch is ITEM and i == 0)]
+        idxs = [i for i in range(len(sch[1])) if not (is_item(sch) and i == 0)]
         for i in rng.sample(idxs, rng.randint(1, len(idxs))):
             out[i] = mutate(rng, sch[1][i], v[i], False)
+        return out
+    if sch[0] == "enum":
+        fields = sch[1][v[0]]
+        if not fields or rng.random() < 0.35:
+            while True:
+                new = rnd_value(rng, sch)
+                if new != v:
+                    return new
+        out = list(v)
+        for i in rng.sample(range(len(fields)), rng.randint(1, len(fields))):
+            out[1 + i] = mutate(rng, fields[i], v[1 + i], False)
         return out
     if sch[0] == "opt":
         r = rng.random()
@@ -321,7 +387,7 @@ def mutate(rng, sch, v, top=True):
     # keyed
     if not top:
         return [mutate(rng, sch[1], it, False) if rng.random() < 0.5 else it for it in v]
-    return keyed_change(rng, v, rng.choice(["insert", "remove", "reorder", "mixed", "mixed", "replace"]))
+    return keyed_change(rng, v, rng.choice(["insert", "remove", "reorder", "mixed", "mixed", "replace"]), sch=sch[1])
 
 
 def fresh_key(rng, used):
@@ -331,28 +397,43 @@ def fresh_key(rng, used):
             return k
 
 
-def keyed_change(rng, v, how, ever=()):
+def keep_old_items(old, new):
+    """an item whose key is in the collection before and after one write keeps its content (a
+    key removed and added again within one write is, for FieldKeys, a key that stayed: the
+    collections nested in the item would change their keys through an ancestor's guard)"""
+    olds = dict((x[0], x) for x in old)
+    return [olds.get(x[0], x) for x in new]
+
+
+def keyed_change(rng, v, how, ever=(), sch=None):
+    """a restructured copy of the keyed collection v (item schema sch); items that stay keep
+    their content (so the collections nested in them keep their keys)"""
+    return keep_old_items(v, _keyed_change(rng, v, how, ever, sch))
+
+
+def _keyed_change(rng, v, how, ever=(), sch=None):
+    sch = sch or ITEM
     out = list(v)
     used = set(it[0] for it in v)
     if how == "insert" or (not out and how in ("remove", "reorder")):
         k = fresh_key(rng, used) if rng.random() < 0.7 or not ever else rng.choice(list(ever))
         if k in used:
             k = fresh_key(rng, used)
-        out.insert(rng.randint(0, len(out)), keyed_item(rng, k))
+        out.insert(rng.randint(0, len(out)), keyed_item(rng, k, sch))
     elif how == "remove":
         del out[rng.randrange(len(out))]
     elif how == "reorder":
         if len(out) < 2:
-            out.insert(0, keyed_item(rng, fresh_key(rng, used)))
+            out.insert(0, keyed_item(rng, fresh_key(rng, used), sch))
         else:
             while out == list(v):
                 rng.shuffle(out)
     elif how == "replace":
         n = rng.randint(0, 3)
-        out = [keyed_item(rng, k) for k in rng.sample(range(1, 60), n)]
+        out = [keyed_item(rng, k, sch) for k in rng.sample([k for k in range(1, 60) if k not in used], n)]
     else:
         for _ in range(rng.randint(1, 3)):
-            out = keyed_change(rng, out, rng.choice(["insert", "remove", "reorder", "insert"]), ever)
+            out = _keyed_change(rng, out, rng.choice(["insert", "remove", "reorder", "insert"]), ever, sch)
     return out
 
 
@@ -360,12 +441,17 @@ def rich_init(rng):
     """a store in which every container is populated"""
     def leaf():
         return [rnd_int(rng), rnd_int(rng)]
+    def tags():
+        return [[k, rnd_int(rng)] for k in rng.sample(range(1, 30), rng.randint(1, 2))]
     def items(n):
-        return [[k, rnd_int(rng), leaf()] for k in rng.sample(range(1, 30), n)]
+        return [[k, rnd_int(rng), leaf(), tags()] for k in rng.sample(range(1, 30), n)]
+    def choice():
+        return rng.choice([[1, rnd_int(rng), leaf()], [2, rnd_int(rng), rnd_int(rng)]])
     def sub():
-        return [rnd_int(rng), leaf(), [rnd_int(rng) for _ in range(rng.randint(1, 2))], leaf()]
+        return [rnd_int(rng), leaf(), [rnd_int(rng) for _ in range(rng.randint(1, 2))], leaf(),
+                [rnd_int(rng), rnd_int(rng)], choice()]
     mid = [rnd_int(rng), leaf(), [leaf()], items(rng.randint(2, 3))]
-    return [rnd_int(rng), mid, [sub()], [sub() for _ in range(2)], items(rng.randint(2, 3))]
+    return [rnd_int(rng), mid, [sub()], [sub() for _ in range(2)], items(rng.randint(2, 3)), choice()]
 
 
 def writable(chain, tree):
@@ -377,6 +463,23 @@ def writable(chain, tree):
     if len(t) >= 2 and t[-1] == (0, 0) and t[-2][0] == 3:
         return False
     return True
+
+
+def untracked_ok(sch, old, new, exact=False):
+    """may this write be an untracked one?  An untracked write leaves the readers it concerns
+    subscribed to what they read before.  When it changes the key SET of a keyed collection, which
+    path segment a new key takes over - and so which of those left-behind readers a later write
+    reaches - depends on the hash order of FieldKeys unless at most one key goes and one comes
+    per update (family keyed-exact): elsewhere an untracked write to a keyed collection only
+    reorders it / changes items in place."""
+    if sch[0] != "keyed" or exact:
+        return True
+    return set(x[0] for x in old) == set(x[0] for x in new)
+
+
+def vary_unwrap(rng, chain, p=0.3):
+    """some `.unwrap()` steps become `.map_untracked(|f| f)` (same subfield)"""
+    return [list(U1) if st[0] == 1 and rng.random() < p else st for st in chain]
 
 
 def rnd_orders(rng, n):
@@ -396,12 +499,21 @@ def rnd_sched(rng):
     return [rng.randint(0, 9) for _ in range(rng.randint(1, 6))]
 
 
+def step_schema(sch, st):
+    kind, arg = st
+    if kind == 4:
+        return sch
+    if sch[0] == "struct":
+        return sch[1][arg]
+    if sch[0] == "enum":
+        return sch[1][arg // 10][arg % 10]
+    return sch[1]
+
+
 def schema_at(chain):
     sch = ROOT
-    for kind, arg in chain:
-        if kind == 4:
-            continue
-        sch = sch[1][arg] if sch[0] == "struct" else sch[1]
+    for st in chain:
+        sch = step_schema(sch, st)
     return sch
 
 
@@ -419,38 +531,68 @@ def erase_randomly(rng, chain, p=0.25):
         if st is None:
             break
         out.append(st)
-        sch = sch[1][st[1]] if sch[0] == "struct" else sch[1]
+        sch = step_schema(sch, st)
     return out
 
 
-READ_HOWS = [0, 0, 2, 3, 4, 5]
+READ_HOWS = [0, 0, 2, 3, 4, 5, 8]
+WRITE_HOWS = [0, 0, 0, 1, 2, 3, 4]      # try_write / Set / Update / maybe_update(true) / StoreField::writer
+UNTRACKED_HOWS = [0, 1, 2]              # try_write_untracked / maybe_update(false) / try_update_untracked
 
 
 def mk(init, readers, steps, sched, orders, kind, rng=None):
     """readers whose chain addresses a collection may iterate over it (iter_unkeyed / keyed
-    into_iter) instead of reading it as a whole"""
-    hows, kinds = [], []
+    into_iter, forwards, reversed or from both ends) instead of reading it as a whole; a
+    reader may keep the handle it built in its first run (mode 1) instead of building the
+    accessors afresh in every run"""
+    hows, kinds, modes = [], [], []
     for rd in readers:
-        how, k = 0, 0
+        how, k, mode = 0, 0, 0
         if rng is not None and well_typed(rd):
             how = rng.choice(READ_HOWS)
             what = schema_at(rd)[0]
             if what in ("vec", "keyed") and rng.random() < 0.5:
-                how = 1
+                how = rng.choice([1, 1, 9, 10])
             if what == "opt" and rng.random() < 0.6:
                 how = rng.choice([6, 7])
+            if what == "enum" and rng.random() < 0.4:
+                how = 11
             if kind != "keyed-exact":
                 k = rng.choice([0, 0, 0, 1, 1, 2, 3, 4])
+            if rng.random() < 0.3:
+                mode = 1
         hows.append(how)
         kinds.append(k)
-    if rng is not None and kind != "keyed-exact":
-        readers = [erase_randomly(rng, rd) if well_typed(rd) else rd for rd in readers]
-        steps = [[st[0], erase_randomly(rng, st[1], 0.15), st[2]] if st[0] in (0, 1) else st for st in steps]
+        modes.append(mode)
+    if rng is not None:
+        if kind != "keyed-exact":
+            readers = [erase_randomly(rng, rd) if well_typed(rd) else rd for rd in readers]
+            steps = [[st[0], erase_randomly(rng, st[1], 0.15)] + st[2:] if st[0] in (0, 1, 5) else st for st in steps]
+        readers = [vary_unwrap(rng, rd) for rd in readers]
+        out = []
+        for st in steps:
+            if st[0] in (0, 1, 5):
+                st = [st[0], vary_unwrap(rng, st[1], 0.15)] + st[2:]
+            if st[0] == 0 and len(st) == 3:
+                st = st + [rng.choice(WRITE_HOWS)]
+            elif st[0] == 5 and len(st) == 3:
+                st = st + [rng.choice(UNTRACKED_HOWS)]
+            out.append(st)
+        steps = out
+        if any(st[0] == 5 for st in steps):
+            # a type-erased handle of a keyed item caches the item's path; kept across an
+            # UNTRACKED removal and re-insertion of its key (of which the reader is not told)
+            # it would go on using the old path: outside the property (the reader of a removed
+            # key is dropped), so such a handle is not kept
+            def cached_key_path(rd):
+                ks = [i for i, st in enumerate(rd) if st[0] == 3]
+                return bool(ks) and any(st[0] == 4 for st in rd[ks[0]:])
+            modes = [0 if cached_key_path(rd) else m for rd, m in zip(readers, modes)]
     if 3 in kinds:
         # the effect behind a Memo is polled a second time when the memo's value changed (it is
         # marked dirty while it runs): harmless noise under FIFO, but it shifts a scheduled order
         sched = []
-    return dict(case=C.norm([0, init, readers, steps, sched, orders, hows, kinds]), kind=kind, compare=True)
+    return dict(case=C.norm([0, init, readers, steps, sched, orders, hows, kinds, modes]), kind=kind, compare=True)
 
 
 # ------------------------------------------------------------------------------------------ families
@@ -480,9 +622,11 @@ def mutate_same_shape(rng, sch, v):
         return v + rng.randint(1, 5)
     if sch[0] == "box":
         return mutate_same_shape(rng, sch[1], v)
-    if sch[0] == "struct":
-        return [x if (sch is ITEM and i == 0) else mutate_same_shape(rng, s, x)
+    if sch[0] in ("struct", "tuple"):
+        return [x if (is_item(sch) and i == 0) else mutate_same_shape(rng, s, x)
                 for i, (s, x) in enumerate(zip(sch[1], v))]
+    if sch[0] == "enum":
+        return [v[0]] + [mutate_same_shape(rng, s, x) for s, x in zip(sch[1][v[0]], v[1:])]
     return [mutate_same_shape(rng, sch[1], x) for x in v]
 
 
@@ -498,7 +642,8 @@ def pick_readers(rng, tree, n, focus=None):
         if rng.random() < 0.2:
             # a chain that is not reachable now (may become so later)
             c2 = c + rng.choice([[U], [I(rng.randint(0, 3))], [K(rng.randint(1, 60))],
-                                 [U, F(1)], [I(rng.randint(0, 3)), F(0)], [K(rng.randint(1, 60)), F(1)]])
+                                 [U, F(1)], [I(rng.randint(0, 3)), F(0)], [K(rng.randint(1, 60)), F(1)],
+                                 [V(1, 0)], [V(1, 1), F(0)], [V(2, 1)], [K(rng.randint(1, 60)), F(3), K(rng.randint(1, 8))]])
             if well_typed(c2):
                 c = c2
         out.append(c)
@@ -535,7 +680,8 @@ def gen_random(rng, n_steps):
             steps.append([1, w, new])
         else:
             new = mutate(rng, sch, v)
-            steps.append([0, w, new])
+            # now and then an untracked write (nobody is told; later notifications show the value)
+            steps.append([5 if r < 0.28 and untracked_ok(sch, v, new) else 0, w, new])
         tree = set_at(tree, w, new)
     return mk(init, readers, steps, rnd_sched(rng), rnd_orders(rng, len(steps)), "random", rng)
 
@@ -543,8 +689,10 @@ def gen_random(rng, n_steps):
 def contains_keyed(sch):
     if sch[0] == "keyed":
         return True
-    if sch[0] == "struct":
+    if sch[0] in ("struct", "tuple"):
         return any(contains_keyed(s) for s in sch[1])
+    if sch[0] == "enum":
+        return any(contains_keyed(s) for fs in sch[1] for s in fs)
     if sch[0] in ("opt", "vec", "box"):
         return contains_keyed(sch[1])
     return False
@@ -556,9 +704,11 @@ def patch_value(rng, sch, v):
         return v + (rng.randint(1, 5) if rng.random() < 0.5 else 0)
     if sch[0] == "box":
         return patch_value(rng, sch[1], v)
-    if sch[0] == "struct":
-        return [x if (sch is ITEM and i == 0) else patch_value(rng, s, x)
+    if sch[0] in ("struct", "tuple"):
+        return [x if (is_item(sch) and i == 0) else patch_value(rng, s, x)
                 for i, (s, x) in enumerate(zip(sch[1], v))]
+    if sch[0] == "enum":
+        return mutate(rng, sch, v, False) if rng.random() < 0.4 else v
     if sch[0] == "keyed":
         return v
     if sch[0] == "opt":
@@ -595,19 +745,33 @@ def gen_patch(rng, n_steps):
     return mk(init, readers, steps, rnd_sched(rng), rnd_orders(rng, len(steps)), "patch", rng)
 
 
-def gen_keyed(rng, n_steps, exact=False):
-    """histories of one keyed collection: restructure it through its own guard, write to items"""
+LARGE_SIZES = [6, 7, 8, 13, 14, 15, 27, 28, 29, 40]     # around the growth steps of the FxHashMap of FieldKeys
+
+
+def gen_keyed(rng, n_steps, exact=False, nested=False, large=False):
+    """histories of one keyed collection: restructure it through its own guard, write to items.
+    nested: the collection is the one inside an item of a keyed collection (store.k[key].kk);
+    large: it starts with many items"""
     init = rich_init(rng)
     fld = rng.choice([[F(4)], [F(1), F(3)]])
-    if rng.random() < 0.15:
+    isch = ITEM
+    if nested:
+        fld = fld + [K(rng.choice(reach(init, fld)[2])[0]), F(3)]
+        isch = TAG
+    if large:
+        n = rng.choice(LARGE_SIZES)
+        init = set_at(init, fld, [keyed_item(rng, k, isch) for k in rng.sample(range(1, 58), n)])
+    elif rng.random() < 0.15:
         init = set_at(init, fld, [])
     tree = init
     ever = set(it[0] for it in reach(tree, fld)[2])
     # readers: the collection, its items and item sub-fields (also of keys that come later), a few others
     readers = [list(fld)]
     future = [fresh_key(rng, ever) for _ in range(3)]
-    for k in list(ever) + future:
-        for suffix in rng.sample([[], [F(1)], [F(2)], [F(2), F(0)], [F(0)]], rng.randint(1, 3)):
+    suffixes = [[], [F(1)], [F(0)]] if nested else [[], [F(1)], [F(2)], [F(2), F(0)], [F(0)], [F(3)]]
+    watched = list(ever) if not large else rng.sample(sorted(ever), 4)
+    for k in watched + future:
+        for suffix in rng.sample(suffixes, rng.randint(1, min(3, len(suffixes)))):
             readers.append(fld + [K(k)] + suffix)
     readers += pick_readers(rng, tree, rng.randint(1, 4))
     rng.shuffle(readers)
@@ -626,22 +790,23 @@ def gen_keyed(rng, n_steps, exact=False):
                         del new[rng.randrange(len(new))]
                     pool = [k for k in future if k not in used] or [fresh_key(rng, used | ever)]
                     k = rng.choice(pool)
-                    new.insert(rng.randint(0, len(new)), keyed_item(rng, k))
+                    new.insert(rng.randint(0, len(new)), keyed_item(rng, k, isch))
                 elif how == "remove":
                     del new[rng.randrange(len(new))]
                 else:
                     rng.shuffle(new)
             else:
                 how = rng.choice(["insert", "remove", "reorder", "mixed", "mixed"])
-                new = keyed_change(rng, cur, how, tuple(ever) + tuple(future))
+                new = keyed_change(rng, cur, how, tuple(ever) + tuple(future), isch)
             ever |= set(it[0] for it in new)
-            steps.append([0, fld, new])
+            # now and then without notification (the keys are refreshed all the same)
+            steps.append([5 if rng.random() < 0.12 and untracked_ok(("keyed", isch), cur, new, exact) else 0, fld, new])
             tree = set_at(tree, fld, new)
             if live_since_report is not None:
                 live_since_report &= set(it[0] for it in new)
         elif r < 0.75 and cur:
             it = rng.choice(cur)
-            suffix = rng.choice([[], [F(1)], [F(2)], [F(2), F(0)], [F(2), F(1)]])
+            suffix = rng.choice([[], [F(1)]] if nested else [[], [F(1)], [F(2)], [F(2), F(0)], [F(2), F(1)]])
             w = fld + [K(it[0])] + suffix
             j, sch, v = reach(tree, w)
             new = mutate_same_shape(rng, sch, v)
@@ -653,8 +818,10 @@ def gen_keyed(rng, n_steps, exact=False):
             live_since_report = set(it[0] for it in cur)
         elif r < 0.9 and exact and cur:
             steps.append([2, fld + [K(rng.choice(cur)[0])], 0])
-        elif r < 0.95:
+        elif r < 0.93:
             steps.append([4, rng.randrange(len(readers)), 0])
+        elif r < 0.95:
+            steps.append([6, fld, 0])       # update_keys() by hand: changes nothing when the keys are fresh
         else:
             # a write through an ancestor that keeps the key sequence
             w = fld[:-1]
@@ -665,7 +832,88 @@ def gen_keyed(rng, n_steps, exact=False):
             tree = set_at(tree, w, new)
     return mk(init, readers, steps, [] if exact else rnd_sched(rng),
               [[[], []]] * len(steps) if exact else rnd_orders(rng, len(steps)),
-              "keyed-exact" if exact else "keyed", rng)
+              "keyed-exact" if exact else "keyed-nested" if nested else "keyed-large" if large else "keyed", rng)
+
+
+def nested_item(rng, k):
+    """an item whose nested keyed collection draws its keys from a small pool, so that the items
+    following each other in a recycled slot have overlapping keys in different positions"""
+    return [k, rnd_int(rng), [rnd_int(rng), rnd_int(rng)],
+            [[t, rnd_int(rng)] for t in rng.sample(range(1, 8), rng.randint(0, 4))]]
+
+
+def gen_nested(rng, n_steps):
+    """keyed inside keyed: the outer collection loses and gains items through its own guard (a new
+    item takes over the path segment of a removed one), the collections nested in the items
+    are restructured through their own guards, nested items are read and written by key"""
+    init = rich_init(rng)
+    outer = rng.choice([[F(4)], [F(1), F(3)]])
+    init = set_at(init, outer, [nested_item(rng, k) for k in rng.sample(range(1, 30), rng.randint(1, 3))])
+    tree = init
+    okeys = [it[0] for it in reach(tree, outer)[2]]
+    future = []
+    while len(future) < 3:
+        k = fresh_key(rng, set(okeys) | set(future))
+        future.append(k)
+    readers = [list(outer)]
+    for k in okeys + future:
+        readers.append(outer + [K(k), F(3)])
+        for t in rng.sample(range(1, 8), 3):
+            readers.append(outer + [K(k), F(3), K(t)] + rng.choice([[], [F(1)]]))
+        if rng.random() < 0.5:
+            readers.append(outer + [K(k)] + rng.choice([[], [F(1)]]))
+    rng.shuffle(readers)
+    readers = readers[:rng.randint(6, 14)]
+    steps = []
+    for _ in range(n_steps):
+        r = rng.random()
+        cur = reach(tree, outer)[2]
+        live = [it[0] for it in cur]
+        if r < 0.3 or not cur:
+            new = list(cur)
+            how = rng.choice(["remove+insert", "remove", "insert", "reorder", "remove+insert"])
+            if "remove" in how and new:
+                del new[rng.randrange(len(new))]
+            if "insert" in how or not new:
+                pool = [k for k in future if k not in [x[0] for x in new]] or [fresh_key(rng, set(live) | set(future))]
+                new.insert(rng.randint(0, len(new)), nested_item(rng, rng.choice(pool)))
+            if how == "reorder":
+                rng.shuffle(new)
+            new = keep_old_items(cur, new)
+            steps.append([0, outer, new])
+            tree = set_at(tree, outer, new)
+        elif r < 0.5:
+            k = rng.choice(live)
+            fld = outer + [K(k), F(3)]
+            kk = reach(tree, fld)[2]
+            new = list(kk)
+            how = rng.choice(["insert", "remove", "reorder", "insert"])
+            if how == "remove" and new:
+                del new[rng.randrange(len(new))]
+            elif how == "reorder" and len(new) > 1:
+                rng.shuffle(new)
+            else:
+                free = [t for t in range(1, 8) if t not in [x[0] for x in new]]
+                if free:
+                    new.insert(rng.randint(0, len(new)), [rng.choice(free), rnd_int(rng)])
+            steps.append([0, fld, new])
+            tree = set_at(tree, fld, new)
+        elif r < 0.8:
+            k = rng.choice(live)
+            kk = reach(tree, outer + [K(k), F(3)])[2]
+            if kk and rng.random() < 0.8:
+                w = outer + [K(k), F(3), K(rng.choice(kk)[0])] + rng.choice([[F(1)], []])
+            else:
+                w = outer + [K(k), F(1)]
+            j, sch, v = reach(tree, w)
+            new = mutate_same_shape(rng, sch, v)
+            steps.append([0, w, new])
+            tree = set_at(tree, w, new)
+        elif r < 0.9:
+            steps.append([3, outer + [K(rng.choice(live)), F(3)], []])
+        else:
+            steps.append([4, rng.randrange(len(readers)), 0])
+    return mk(init, readers, steps, rnd_sched(rng), rnd_orders(rng, len(steps)), "nested", rng)
 
 
 def set_keys_like(sch, old, new):
@@ -753,8 +1001,10 @@ def gen_keyed_ancestor(rng, shrink=False):
             w = fld + [K(it[0]), F(1)]
             steps.append([0, w, it[1] + 1])
             tree = set_at(tree, w, it[1] + 1)
-        elif r < 0.8:
+        elif r < 0.75:
             steps.append([4, rng.randrange(len(readers)), 0])
+        elif r < 0.85:
+            steps.append([6, fld, 0])
         else:
             steps.append([3, fld, []])
     it = mk(init, readers, steps, [], [[[], []]] * len(steps), "keyed-ancestor")
@@ -784,6 +1034,12 @@ def generate(rng, tier):
         yield gen_keyed(rng, rng.randint(4, 12))
     for _ in range(700 if quick else 15000):
         yield gen_keyed(rng, rng.randint(4, 12), exact=True)
+    for _ in range(400 if quick else 8000):
+        yield gen_keyed(rng, rng.randint(4, 10), nested=True)
+    for _ in range(150 if quick else 3000):
+        yield gen_keyed(rng, rng.randint(4, 10), large=True)
+    for _ in range(600 if quick else 12000):
+        yield gen_nested(rng, rng.randint(4, 12))
     for _ in range(700 if quick else 15000):
         yield gen_patch(rng, rng.randint(2, 6))
     for _ in range(6 if quick else 100):
@@ -803,25 +1059,29 @@ def valid_case(item):
     change their key sequence only through a direct write; items keep their key; keys distinct"""
     try:
         c = item["case"]
-        if len(c) not in (6, 7, 8) or c[0] != 0:
+        if len(c) not in (6, 7, 8, 9) or c[0] != 0:
             return False
-        if len(c) >= 7 and not (isinstance(c[6], list) and all(x in range(8) for x in c[6])):
+        if len(c) >= 7 and not (isinstance(c[6], list) and all(x in range(12) for x in c[6])):
             return False
         if len(c) >= 8 and not (isinstance(c[7], list) and all(x in range(5) for x in c[7])):
+            return False
+        if len(c) >= 9 and not (isinstance(c[8], list) and all(x in (0, 1) for x in c[8])):
             return False
         tree, readers, steps = c[1], c[2], c[3]
         if not well_formed(ROOT, tree):
             return False
         def ok_chain(ch):
             return isinstance(ch, list) and all(isinstance(s, list) and len(s) == 2 and
-                                                all(isinstance(x, int) and x >= 0 for x in s) and s[0] <= 5
+                                                all(isinstance(x, int) and x >= 0 for x in s) and s[0] <= 6
                                                 for s in ch) and well_typed(ch)
         if not all(ok_chain(rd) for rd in readers):
             return False
         if not (isinstance(c[4], list) and all(isinstance(x, int) and x >= 0 for x in c[4])):
             return False
         for st in steps:
-            if len(st) != 3 or not isinstance(st[0], int):
+            if len(st) not in (3, 4) or not isinstance(st[0], int):
+                return False
+            if len(st) == 4 and not (isinstance(st[3], int) and 0 <= st[3] <= 4):
                 return False
             op = st[0]
             if op == 4:
@@ -832,7 +1092,7 @@ def valid_case(item):
             if not ok_chain(chain):
                 return False
             j, sch, v = reach(tree, chain)
-            if op in (0, 1):
+            if op in (0, 1, 5):
                 if j != len(chain):
                     continue
                 if not well_formed(sch, st[2]):
@@ -842,7 +1102,9 @@ def valid_case(item):
                     return False
                 if len(t) >= 2 and t[-1] == (0, 0) and t[-2][0] == 3:
                     return False
-                if item.get("kind") != "keyed-ancestor" and not keys_kept(sch, v, st[2], top=(op == 0)):
+                if item.get("kind") != "keyed-ancestor" and not keys_kept(sch, v, st[2], top=(op in (0, 5))):
+                    return False
+                if op == 5 and not untracked_ok(sch, v, st[2], item.get("kind") == "keyed-exact"):
                     return False
                 tree = set_at(tree, chain, st[2])
             elif op == 3:
@@ -860,8 +1122,11 @@ def well_formed(sch, v):
         return well_formed(sch[1], v)
     if not isinstance(v, list):
         return False
-    if sch[0] == "struct":
+    if sch[0] in ("struct", "tuple"):
         return len(v) == len(sch[1]) and all(well_formed(s, x) for s, x in zip(sch[1], v))
+    if sch[0] == "enum":
+        return (len(v) >= 1 and isinstance(v[0], int) and 0 <= v[0] < len(sch[1]) and
+                len(v) == 1 + len(sch[1][v[0]]) and all(well_formed(s, x) for s, x in zip(sch[1][v[0]], v[1:])))
     if sch[0] == "opt":
         return len(v) <= 1 and all(well_formed(sch[1], x) for x in v)
     if sch[0] == "vec":
@@ -874,8 +1139,12 @@ def keys_kept(sch, old, new, top):
     """keyed collections strictly below the written field keep their key sequence"""
     if sch[0] == "keyed":
         if top:
-            return True
-        return [x[0] for x in old] == [x[0] for x in new]
+            # written through its own guard: free to restructure; an item that stays keeps
+            # the keys of the collections nested in it
+            olds = dict((x[0], x) for x in old)
+            return all(keys_kept(sch[1], olds[x[0]], x, False) for x in new if x[0] in olds)
+        return [x[0] for x in old] == [x[0] for x in new] and \
+            all(keys_kept(sch[1], o, n, False) for o, n in zip(old, new))
     if sch[0] == "struct":
         return all(keys_kept(s, o, n, False) for s, o, n in zip(sch[1], old, new))
     if sch[0] in ("opt", "vec"):
@@ -905,6 +1174,10 @@ def _oracle(item, impl):
 
     cur = {}
     pending = None
+    # readers an untracked write has left behind (related to it, not re-run since): what they
+    # are subscribed to no longer corresponds to the store; they are judged again (who is
+    # notified) after their next run -- what they see when they run is always judged
+    unsure = set()
     # initial phase: every reader runs once and sees the initial value
     ph = impl[0]
     ran = [r[0] for r in ph[1]]
@@ -923,10 +1196,11 @@ def _oracle(item, impl):
         written = []          # abstract paths whose write guard was dropped / patch-notified
         order_path = None
         label = "step %d" % i
+        allowed = None        # untracked write: who MAY be notified (nobody has to be)
         if op == 4:
             expected = {st[1]}
             label += " (poke reader %d)" % st[1]
-        elif op in (0, 1):
+        elif op in (0, 1, 5):
             chain = st[1]
             j, sch, old = reach(tree, chain)
             if j != len(chain):
@@ -937,21 +1211,29 @@ def _oracle(item, impl):
                     written = [tup(chain)]
                     order_path = tup(chain)
                     label += " (write %s)" % name(chain)
+                elif op == 5:
+                    written = [tup(chain)]
+                    label += " (untracked write %s)" % name(chain)
                 else:
                     written = diff_paths(sch, old, st[2], tup(chain))
                     label += " (patch %s: changed %s)" % (name(chain), [name(w) for w in written])
                 tree = set_at(tree, chain, st[2])
                 expected = set(e for e, p in cur.items() if p is not None and any(related(w, p) for w in written))
+                if op == 5:
+                    # the property speaks about notifying writes; of an explicitly untracked one it
+                    # only follows that no UNRELATED reader is notified
+                    allowed, expected = expected, set()
                 if ph[2] != 1:
                     return (label + ": no write guard obtained", dict(step=i, reader=tup(st[1]), what='noguard'))
         else:
             expected = set()
         ran = [r[0] for r in runs]
+        expected -= unsure
         for e in sorted(expected):
             if e not in ran:
                 return ("%s: reader %d of %s was not notified" % (label, e, name(cur[e])), dict(step=i, reader=cur[e], what='missed'))
         for e in ran:
-            if e not in expected:
+            if e not in (expected if allowed is None else allowed) and e not in unsure:
                 what = name(cur[e]) if cur.get(e) is not None else "nothing in the store (chain %s cut short)" % name(readers[e])
                 return ("%s: reader %d of %s was notified" % (label, e, what), dict(step=i, reader=(cur.get(e) or readers[e]), what='spurious'))
         if sorted(set(wakes)) != sorted(set(e for e in ran if not imm(e))):
@@ -987,6 +1269,9 @@ def _oracle(item, impl):
             if obs != want:
                 return ("%s: reader %d (%s) saw %r, the store holds %r" % (label, e, name(readers[e]), obs, want), dict(step=i, reader=readers[e], what='value'))
             cur[e] = readers[e] if len(want) == 2 else None
+            unsure.discard(e)
+        if allowed is not None:
+            unsure |= set(e for e in allowed if e not in ran)
         if op == 3 and isinstance(ph[2], list):
             pattern, same = ph[2]
             if pattern != list(range(len(pattern))):
@@ -1017,25 +1302,49 @@ def nontrivial(item, model):
 KEYED_FIELDS = [((0, 4),), ((0, 1), (0, 3))]
 
 
+def keyed_paths(sch, v, pre=()):
+    """{abstract path of every keyed collection in the value: its key sequence}"""
+    out = {}
+    if sch[0] == "struct":
+        for i, s in enumerate(sch[1]):
+            out.update(keyed_paths(s, v[i], pre + ((0, i),)))
+    elif sch[0] == "opt":
+        if v:
+            out.update(keyed_paths(sch[1], v[0], pre + ((1, 0),)))
+    elif sch[0] == "vec":
+        for i, x in enumerate(v):
+            out.update(keyed_paths(sch[1], x, pre + ((2, i),)))
+    elif sch[0] == "keyed":
+        out[pre] = [x[0] for x in v]
+        for x in v:
+            out.update(keyed_paths(sch[1], x, pre + ((3, x[0]),)))
+    elif sch[0] == "enum":
+        for i, s in enumerate(sch[1][v[0]]):
+            out.update(keyed_paths(s, v[1 + i], pre + ((6, 10 * v[0] + i),)))
+    return out
+
+
 def stale_fields(item):
-    """keyed fields whose key sequence was changed by a write / patch through a strict ancestor
-    (so that update_keys() did not run): {field chain: index of the first such step}"""
+    """keyed collections (also nested ones) whose key sequence was changed by a write / patch
+    through a strict ancestor (so that update_keys() did not run): {abstract path of the
+    collection: index of the first such step}.  (A later write through the collection's own guard
+    or an explicit update_keys() refreshes the keys, but what went wrong before -- a reader that
+    saw another item, a write that landed in another item -- stays wrong.)"""
     c = item["case"]
     tree, out = c[1], {}
     for i, st in enumerate(c[3]):
-        if st[0] not in (0, 1) or not isinstance(st[1], list):
+        if st[0] not in (0, 1, 5) or not isinstance(st[1], list):
             continue
         chain = st[1]
         j, sch, v = reach(tree, chain)
         if j != len(chain) or not well_formed(sch, st[2]):
             continue
         new_tree = set_at(tree, chain, st[2])
-        for kf in KEYED_FIELDS:
-            if len(tup(chain)) < len(kf) and is_prefix(tup(chain), kf):
-                old_ids = [x[0] for x in reach(tree, [list(x) for x in kf])[2]]
-                new_ids = [x[0] for x in reach(new_tree, [list(x) for x in kf])[2]]
-                if old_ids != new_ids:
-                    out.setdefault(kf, i)
+        w = tup(chain)
+        old_k, new_k = keyed_paths(ROOT, tree), keyed_paths(ROOT, new_tree)
+        for kf, ids in old_k.items():
+            if len(w) < len(kf) and is_prefix(w, kf) and kf in new_k and new_k[kf] != ids:
+                out.setdefault(kf, i)
         tree = new_tree
     return out
 
@@ -1076,27 +1385,45 @@ def classify(item, impl, model):
 
 def describe(item):
     c = item["case"]
-    ops = {0: "write", 1: "patch", 2: "path-of", 3: "segments-of", 4: "poke"}
+    ops = {0: "write", 1: "patch", 2: "path-of", 3: "segments-of", 4: "poke", 5: "untracked write", 6: "update_keys"}
     out = {"store": c[1], "readers": ["%d: %s" % (i, name(r)) for i, r in enumerate(c[2])], "history": []}
     for st in c[3]:
         if st[0] == 4:
             out["history"].append("poke reader %d" % st[1])
         else:
-            out["history"].append("%s %s%s" % (ops.get(st[0], "?"), name(st[1]),
-                                                " := %r" % (st[2],) if st[0] in (0, 1) else ""))
+            out["history"].append("%s %s%s%s" % (ops.get(st[0], "?"), name(st[1]),
+                                                  " := %r" % (st[2],) if st[0] in (0, 1, 5) else "",
+                                                  " [entry point %d]" % st[3] if len(st) > 3 and st[3] else ""))
     out["schedule"] = c[4] or "FIFO"
+    if len(c) > 6:
+        out["read entry points"] = c[6]
+    if len(c) > 7:
+        out["subscriber kinds"] = c[7]
+    if len(c) > 8:
+        out["kept handles"] = c[8]
     return out
 
 
 def coverage_extra(results):
     pairs = dict(self_=0, ancestor=0, descendant=0, unrelated=0)
-    keyed_updates = reports = patches = iterating = 0
-    depth = {}
+    keyed_updates = reports = patches = iterating = untracked = kept = 0
+    depth, read_hows, write_hows = {}, {}, {}
+    enum_readers = nested_readers = 0
     for r in results:
         c = r["item"]["case"]
         readers = [tup(x) for x in c[2]]
-        iterating += sum(1 for x in c[6] if x == 1) if len(c) > 6 else 0
+        iterating += sum(1 for x in c[6] if x in (1, 9, 10)) if len(c) > 6 else 0
+        kept += sum(c[8]) if len(c) > 8 else 0
+        for x in (c[6] if len(c) > 6 else []):
+            read_hows[x] = read_hows.get(x, 0) + 1
+        enum_readers += sum(1 for rd in readers if any(a == 6 for a, _ in rd))
+        nested_readers += sum(1 for rd in readers if sum(1 for a, _ in rd if a == 3) >= 2)
         for st in c[3]:
+            if st[0] == 0:
+                h = st[3] if len(st) > 3 else 0
+                write_hows[h] = write_hows.get(h, 0) + 1
+            if st[0] == 5:
+                untracked += 1
             if st[0] == 0:
                 w = tup(st[1])
                 depth[len(w)] = depth.get(len(w), 0) + 1
@@ -1109,35 +1436,44 @@ def coverage_extra(results):
                         pairs["descendant"] += 1
                     else:
                         pairs["unrelated"] += 1
-                if tup(st[1]) in KEYED_FIELDS:
+                if tup(st[1]) in KEYED_FIELDS or (tup(st[1]) and tup(st[1])[-1] == (0, 3) and len(tup(st[1])) >= 3):
                     keyed_updates += 1
             elif st[0] == 1:
                 patches += 1
             elif st[0] == 3:
                 reports += 1
     return dict(writer_reader_pairs=pairs, written_depth_histogram=depth, keyed_updates=keyed_updates,
-                segment_reports=reports, patches=patches, iterating_readers=iterating)
+                segment_reports=reports, patches=patches, iterating_readers=iterating,
+                untracked_writes=untracked, kept_handle_readers=kept, read_entry_points=read_hows,
+                write_entry_points=write_hows, enum_field_readers=enum_readers, nested_keyed_readers=nested_readers)
 
 
-LEVEL_TEXT = ("Coq proofs (21+ theorems, no axioms). Paths, any depth: a write through the field at path p wakes a reader of "
+LEVEL_TEXT = ("Coq proofs (30 theorems, no axioms). Paths, any depth: a write through the field at path p wakes a reader of "
               "path r iff one is a prefix of the other (field, ancestors, descendants; never siblings or cousins); its "
               "position in the notification order is |r| for ancestors and the field itself and |p|+1 for descendants "
               "(ancestors before descendants). Keyed collections, for all histories of insert/remove/reorder and all "
               "hash-map visiting orders: live keys never share a path segment, a key keeps its segment while it lives, "
-              "its index is its position, a removed key is dropped. Simulation (store value, KeyMap, ordered subscriber "
-              "set per trigger, source set per effect, run queue), for all shapes, readers, schedules and histories of "
-              "writes/patches/pokes: the subscription state stays consistent and a dropped write guard queues exactly "
+              "its index is its position, a removed key is dropped; when a key is removed the key maps of the keyed fields "
+              "nested below its item are forgotten, so an item that takes over the recycled segment starts in sync. "
+              "Simulation (store value, KeyMap, ordered subscriber "
+              "set per trigger, source set per effect, run queue), for all shapes (structs, options, vectors, keyed vectors, "
+              "boxes, enums), readers, schedules and histories of writes/patches/pokes/untracked writes/update_keys: the "
+              "subscription state stays consistent and a dropped write guard queues exactly "
               "the effects whose last run read a related path, ancestors' readers first. All about an executable Gallina "
-              "transcription of triggers_for_path, track_field, the write guards, Patch and FieldKeys; tied to /repo by "
+              "transcription of triggers_for_path, track_field, the write guards, Patch and FieldKeys/KeyMap; tied to /repo by "
               "running the extracted simulation and the real Store/Effect on a deterministic executor over the same "
               "generated histories every run, plus an independent Python oracle (prefix relation on accessor chains, "
               "replayed values, wake order).")
 LEVEL_NOTE = ("Trusted: Coq kernel, ExtrOcamlBasic extraction + OCaml driver, the Rust harness (fixed derive(Store) "
               "shapes, own executor); modelled not verified: reactive_graph's trigger subscriber sets and effect "
-              "re-subscription, compared on every case. Seven defects repaired (F-C16-a..d, f, h, i); two open (F-C16-e: "
+              "re-subscription, compared on every case. Eleven defects repaired (F-C16-a..d, f, h..m); two open (F-C16-e: "
               "keys of a keyed collection go stale when it is restructured through an ancestor's write guard; F-C16-g: two "
               "readers strictly below the written field are woken in subscription order) — stated as _refuted / "
               "_except_known. The invariant / end-to-end theorems cover executor-scheduled readers (Effect, Memo, "
               "isomorphic Effect); ImmediateEffect and RenderEffect readers are covered by the correspondence check only. "
-              "Enum variant accessors, Signal::from(subfield), reverse iteration and map_untracked are not exercised. No axioms.")
+              "Every public entry point of the anchor files is listed in coverage/C16.md with where it is driven; compared "
+              "but not separately modelled: Set/Update/maybe_update/raw writer, Signal::from(subfield), reversed iteration, "
+              "map_untracked, kept handles. Not driven (with reasons in coverage/C16.md): Store::new_local / LocalStorage, "
+              "disposal of the arena handles, VecDeque collections, manual Notify::notify(), the wasm32 KeyMap, generic "
+              "structs (derive(Store)/derive(Patch) reject them at compile time). No axioms.")
 TECHNIQUE = "Coq proof (induction over paths; invariants over all key histories, visiting orders, schedules and write histories) + differential correspondence of the extracted model with the Rust code"
